@@ -41,6 +41,8 @@ type c04Expectation struct {
 	all map[string]map[int64]float64
 	// exact[lset]: the samples must be exactly those of the model (otherwise: a subset in time order).
 	exact map[string]bool
+	// overlapping[lset]: some copy of the label set arrives with chunks that overlap in time.
+	overlapping map[string]bool
 }
 
 func c04Model(ds *dataset, ms []*labels.Matcher, mint, maxt int64, dedup bool, seekT int64, useSeek bool) c04Expectation {
@@ -49,6 +51,7 @@ func c04Model(ds *dataset, ms []*labels.Matcher, mint, maxt int64, dedup bool, s
 		samples map[int64]float64
 		all     map[int64]float64
 		full    bool
+		ovl     bool
 	}
 	byL := map[string]*acc{}
 	var strip []string
@@ -75,10 +78,13 @@ func c04Model(ds *dataset, ms []*labels.Matcher, mint, maxt int64, dedup bool, s
 				a = &acc{l: l, samples: map[int64]float64{}, all: map[int64]float64{}, full: true}
 				byL[l.String()] = a
 			}
-			n := 0
-			for _, c := range ser.Chunks {
-				n += len(c.S)
+			held := map[int64]bool{} // chunks of one copy may overlap: count distinct samples
+			for ci, c := range ser.Chunks {
+				if ci > 0 && c.mint() <= ser.Chunks[ci-1].maxt() {
+					a.ovl = true
+				}
 				for _, p := range c.S {
+					held[p.T] = true
 					a.all[p.T] = p.V
 				}
 				if c.mint() <= maxt && c.maxt() >= mint {
@@ -87,12 +93,12 @@ func c04Model(ds *dataset, ms []*labels.Matcher, mint, maxt int64, dedup bool, s
 					}
 				}
 			}
-			if n != len(ds.Logical[ser.Logical].Samples) {
+			if len(held) != len(ds.Logical[ser.Logical].Samples) {
 				a.full = false
 			}
 		}
 	}
-	exp := c04Expectation{exact: map[string]bool{}, all: map[string]map[int64]float64{}}
+	exp := c04Expectation{exact: map[string]bool{}, all: map[string]map[int64]float64{}, overlapping: map[string]bool{}}
 	var accs []*acc
 	for _, a := range byL {
 		accs = append(accs, a)
@@ -113,19 +119,22 @@ func c04Model(ds *dataset, ms []*labels.Matcher, mint, maxt int64, dedup bool, s
 		// every copy holds every sample of the logical series. Without deduplication overlapping copies
 		// of one label set are merged by time, which is exact for consistent data.
 		exp.exact[q.Lset] = a.full || !dedup
+		exp.overlapping[q.Lset] = a.ovl
 	}
 	return exp
 }
 
 func runC04(x *simkit.Exec) {
 	full := !x.Bool("partialcopies", 1, 3)
-	ds := genDataset(x, genOpts{MaxStores: 5, MaxSeries: 10, MaxChunks: 6, MaxSamples: 12, AllowLegacy: true, FullCopies: full,
+	// scrape intervals of 1 s, 15 s and 60 s: the penalty-based deduplication carries time constants
+	step := []int64{1000, 15000, 60000}[x.Draw("scrapeinterval", 3)]
+	ds := genDataset(x, genOpts{StepMs: step, MaxStores: 5, MaxSeries: 10, MaxChunks: 6, MaxSamples: 12, AllowLegacy: true, FullCopies: full, OverlapCuts: true,
 		ReplicaModes: []string{"ext", "stored", "none", "ext"}})
 	dedup := !x.Bool("dedupoff", 1, 3)
 	ms := genMatchers(x, false)
 	mint, maxt := allMin, allMax
 	if x.Bool("subrange", 1, 4) {
-		mint, maxt = int64(x.Range("qmin", 0, 6))*1000, int64(x.Range("qmax", 1, 14))*1000
+		mint, maxt = int64(x.Range("qmin", 0, 6))*step, int64(x.Range("qmax", 1, 14))*step
 		if maxt < mint {
 			mint, maxt = maxt, mint
 		}
@@ -136,7 +145,7 @@ func runC04(x *simkit.Exec) {
 	}
 	batch := []int{0, 1, 2, 7, 64}[x.Draw("batch", 5)]
 	useSeek := x.Bool("seekfirst", 1, 2)
-	seekT := int64(x.Range("seekt", 0, 14))*1000 + int64(x.Draw("seekoff", 3))*100
+	seekT := int64(x.Range("seekt", 0, 14))*step + int64(x.Draw("seekoff", 3))*step/10
 	closeFx, ok := ds.openFixtures(x)
 	if !ok {
 		return
@@ -293,7 +302,11 @@ func runC04(x *simkit.Exec) {
 		if exp.exact[e.Lset] {
 			x.Probe("c04.exact_series_checked")
 			if inRange != len(e.Samples) {
-				x.Violate("identical-replicas-exact-samples", sig, "%sseries %s has %d samples inside the range, the model has %d\nresult:\n%smodel:\n%s", head, e.Lset, inRange, len(e.Samples), formatQ([]qseries{g}), formatQ([]qseries{e}))
+				cls := sig
+				if exp.overlapping[e.Lset] {
+					cls += fmt.Sprintf(":overlapping-chunks-in-one-copy:interval=%ds", step/1000)
+				}
+				x.Violate("identical-replicas-exact-samples", cls, "%sseries %s has %d samples inside the range, the model has %d\nresult:\n%smodel:\n%s", head, e.Lset, inRange, len(e.Samples), formatQ([]qseries{g}), formatQ([]qseries{e}))
 				return
 			}
 		} else {
